@@ -112,6 +112,14 @@ def build(case, tmpdir=None):
                 out.append("#" * it["level"] + f" H{hi}\n\nP{hi}")
             levels.append(it["level"])
             hi += 1
+        elif it["t"] == "only":
+            # Sphinx' 'only' directive parses its body with section titles allowed: headings in it are document headings
+            # of the block only: the section structure around the block is that of the document without it
+            body = []
+            for L in it["levels"]:
+                body.append("#" * L + f" Only{len(nested)}x\n\ninner text\n")
+                nested.append((f"Only{len(nested)}x", None))
+            out.append("`````{only} html\n" + "\n".join(body) + "`````")
         elif it["t"] == "fill":
             out.append(FILLERS[it["kind"]])
         elif it["t"] == "nested":
@@ -222,15 +230,25 @@ def check_case(acc, case) -> list[dict]:
         settings = {"myst_enable_extensions": ["colon_fence", "deflist", "fieldlist"], "myst_footnote_sort": False}
         if case.get("fm_title") == "config":
             settings["myst_title_to_header"] = True
+        use_sphinx = any(it["t"] == "only" for it in case["items"])
         try:
-            doc, warn = front.docutils_parse(text, source_path=src, settings=settings)
+            if use_sphinx:
+                from checks import c01_total as c01
+                from myst_parser.config.main import MdParserConfig
+
+                proj = c01.sphinx_app()
+                proj.app.env.myst_config = MdParserConfig(enable_extensions=["colon_fence", "deflist", "fieldlist"], footnote_sort=False)
+                doc, warn = proj.read_doc("doc", text, post_transforms=False)
+                src = os.path.join(proj.src, "doc.md")
+            else:
+                doc, warn = front.docutils_parse(text, source_path=src, settings=settings)
         except Exception as exc:  # noqa: BLE001
             return [mk(f"C05:render-raises:{type(exc).__name__}", case, "document", f"{type(exc).__name__}: {exc}")]
         text_wo = None
         if nested:
             case2 = {"fm_title": case.get("fm_title"), "items": [
                 ({**it, "between": [None if (b and b[0] in ("quoteh", "listh", "noteh")) else b for b in (it.get("between") or [])]}
-                 if it["t"] == "include" else it) for it in case["items"] if it["t"] != "nested"]}
+                 if it["t"] == "include" else it) for it in case["items"] if it["t"] not in ("nested", "only")]}
             text_wo, _, _, _ = build(case2, tmp)
             doc_wo, _ = front.docutils_parse(text_wo, source_path=src, settings=settings)
     finally:
@@ -239,7 +257,9 @@ def check_case(acc, case) -> list[dict]:
     vs = []
     exp = model(levels)
     secs = observe(doc)
-    n_sections = len(list(doc.findall(nodes.section)))
+    only_marks = [m for m, L in nested if L is None]
+    nested = [(m, L) for m, L in nested if L is not None]
+    n_sections = len([s for s in doc.findall(nodes.section) if not (len(s) and s[0].astext() in only_marks)])
     if n_sections != len(levels):
         vs.append(mk("C05:section-count", case, len(levels), n_sections))
     for i, (pidx, _w) in enumerate(exp):
@@ -260,13 +280,15 @@ def check_case(acc, case) -> list[dict]:
                          [c.astext()[:10] for c in sec.children]))
             break
     # source order of sections
-    order = [s[0].astext() for s in doc.findall(nodes.section) if len(s)]
+    order = [s[0].astext() for s in doc.findall(nodes.section) if len(s) and s[0].astext() not in only_marks]
     if order != [f"H{i}" for i in range(len(levels))] and not vs:
         vs.append(mk("C05:section-order", case, [f"H{i}" for i in range(len(levels))], order))
     # warnings
     wl = [w for w in front.warning_lines(warn) if "[myst.header]" in w]
     n_exp = sum(1 for _p, w in exp if w)
-    if len(wl) != n_exp:
+    if only_marks:
+        pass    # (the headings inside the block have warnings of their own; only the structure is compared)
+    elif len(wl) != n_exp:
         vs.append(mk("C05:non-consecutive-warning-count", case, {"levels": levels, "expected": n_exp}, wl))
     else:
         exp_lines = sorted(hlines[i] for i, (_p, w) in enumerate(exp) if w and hlines[i] is not None)
@@ -307,8 +329,10 @@ def check_case(acc, case) -> list[dict]:
                 vs.append(mk("C05:rubric-at-section-level", case, "inside container", type(r.parent).__name__))
                 break
 
+    if nested or only_marks:
         def tree(node):
-            return [(s[0].astext(), tree(s)) for s in node.children if isinstance(s, nodes.section)]
+            # (Sphinx re-inserts the sections of an 'only' block at document level: they are left out of the comparison)
+            return [(s[0].astext(), tree(s)) for s in node.children if isinstance(s, nodes.section) and s[0].astext() not in only_marks]
 
         if tree(doc) != tree(doc_wo):
             vs.append(mk("C05:nested-heading-changes-section-structure", case, tree(doc_wo), tree(doc)))
@@ -358,6 +382,19 @@ def sub_enum(acc, shard, nshards, tier, seed):
                     acc.known_hits[v["signature"]] += 1
                 elif len(acc.violations) < 8 and all(v["signature"] != w["signature"] for w in acc.violations):
                     acc.violations.append(v)
+    # Sphinx: headings inside an 'only' block between document headings (every level triple)
+    for a in (1, 2):
+        for inner in itertools.product((1, 2, 3), repeat=2):
+            for b in (1, 2, 3, 4):
+                i += 1
+                if i % nshards != shard:
+                    continue
+                case = {"items": [{"t": "h", "level": a}, {"t": "only", "levels": list(inner)}, {"t": "h", "level": b}]}
+                for v in check_case(acc, case):
+                    if kn.matches(v):
+                        acc.known_hits[v["signature"]] += 1
+                    elif len(acc.violations) < 8 and all(v["signature"] != w["signature"] for w in acc.violations):
+                        acc.violations.append(v)
     # a front-matter title as the first H1 (title_to_header, selected in the front matter or globally) x every sequence
     for how in ("front", "config"):
         for n in range(0, 4):
